@@ -22,7 +22,6 @@ package engine
 //@   loop 1 invariant cachesOK(flowCaches)
 //@   loop 1 invariant forall k string :: indom(ancestors, k) == old(indom(ancestors, k))
 //@   ensures [only-files-being-expanded-count-as-ancestors] forall k string :: indom(ancestors, k) == old(indom(ancestors, k))
-//@   loop 1 invariant [caches-collected-so-far-are-kept] len(flowCaches) >= len(old(flowCaches)) && (forall i int :: 0 <= i && i < len(old(flowCaches)) ==> flowCaches[i] == old(flowCaches)[i])
 //@   ensures [cache-or-error] result1 == nil ==> result == nil || wfcache(result)
 //@   ensures [error-has-no-cache] result1 != nil ==> result == nil
 //
